@@ -146,6 +146,30 @@ class UserFile:
         return '<%s>' % self._tag
 
 
+class FalsyLenFile(UserFile):
+    """A perfectly good sink that is false in a boolean context (empty container protocol)."""
+
+    def __len__(self):
+        return 0
+
+
+class FalsyBoolFile(UserFile):
+    def __bool__(self):
+        return False
+
+
+class FalsyIterable(UserIterable):
+    """Iterable with items whose truth value is False."""
+
+    def __bool__(self):
+        return False
+
+
+class FalsyLenIterable(UserIterable):
+    def __len__(self):
+        return 0
+
+
 def _gen(ctx, tag, items, raise_at):
     for i, v in enumerate(items):
         ctx.log.append((tag, 'yield', i))
@@ -214,6 +238,9 @@ def build(spec, ctx):
         return CountingIter(ctx, ctx.tag('citer'), [build(s, ctx) for s in spec[1]], spec[2] if len(spec) > 2 else None)
     if k == 'userit':
         return UserIterable(ctx, ctx.tag('userit'), [build(s, ctx) for s in spec[1]], spec[2] if len(spec) > 2 else None)
+    if k == 'falsyit':
+        cls = FalsyLenIterable if (len(spec) > 2 and spec[2] == 'len0') else FalsyIterable
+        return cls(ctx, ctx.tag('falsyit'), [build(s, ctx) for s in spec[1]], None)
     if k == 'getitem':
         return GetItemSeq(ctx, ctx.tag('getitem'), [build(s, ctx) for s in spec[1]])
     if k == 'fn':
@@ -225,7 +252,8 @@ def build(spec, ctx):
         ctx.files.append(f)
         return f
     if k == 'userfile':
-        f = UserFile(ctx, ctx.tag('file'), has_flush=spec[1] if len(spec) > 1 else True)
+        cls = {'len0': FalsyLenFile, 'boolfalse': FalsyBoolFile}.get(spec[2] if len(spec) > 2 else None, UserFile)
+        f = cls(ctx, ctx.tag('file'), has_flush=spec[1] if len(spec) > 1 else True)
         ctx.files.append(f)
         return f
     if k == 'nofile':
@@ -387,7 +415,8 @@ def iterable_forms(items, raise_at=1):
     """The same items as list/tuple/set/dict/iterator/generator/user objects (+ raising variants)."""
     forms = [('list', ['list', items]), ('tuple', ['tuple', items]), ('iter', ['iter', ['list', items]]),
              ('gen', ['gen', items]), ('citer', ['citer', items]), ('userit', ['userit', items]),
-             ('getitem', ['getitem', items]), ('gen-raising', ['gen', items, raise_at]),
+             ('getitem', ['getitem', items]), ('falsy-iterable', ['falsyit', items]), ('falsy-len0-iterable', ['falsyit', items, 'len0']),
+             ('gen-raising', ['gen', items, raise_at]),
              ('citer-raising', ['citer', items, raise_at])]
     hashable = all(s[0] in ('int', 'str', 'float', 'bool', 'tuple', 'none') for s in items)
     if hashable:
@@ -433,18 +462,20 @@ def value_sets(b):
         S.append(('bool-raises', {'iterable': L([['obj', {'__bool__': ['raise']}]])}))
         S.append(('len-objs', {'iterable': L([['obj', {'__len__': I(0)}], ['obj', {'__len__': I(2)}]])}))
     elif b == 'enumerate':
-        starts = [I(0), I(1), I(-3), I(10 ** 20), ['bool', True], ['obj', {'__index__': I(7)}], ['float', '1.0'],
+        starts = [I(0), I(1), ['bool', False], ['obj', {'__index__': I(7), '__bool__': ['bool', False]}], ['obj', {'__index__': I(0)}],
+                  I(-3), I(10 ** 20), ['bool', True], ['obj', {'__index__': I(7)}], ['float', '1.0'],
                   ['str', '1'], ['none'], ['obj', {'__index__': ['raise']}]]
         for l, vs in _iter_sets():
             for k, st in enumerate(starts):
-                if k < 2 or l.startswith('ints/') or l.startswith('bad/'):
+                if k < 5 or l.startswith('ints/') or l.startswith('bad/'):
                     S.append(('%s,start=%s' % (l, st[0] + str(k)), dict(vs, start=st)))
     elif b == 'filter':
-        fns = [['none'], ['fn', 'isodd'], ['fn', 'truthy'], ['fn', 'len'], ['fn', 'boom'], I(3),
+        fns = [['none'], ['fn', 'isodd'], ['obj', {'__call__': ['fn', 'isodd'], '__bool__': ['bool', False]}],
+               ['obj', {'__call__': ['fn', 'truthy'], '__len__': I(0)}], ['fn', 'truthy'], ['fn', 'len'], ['fn', 'boom'], I(3),
                ['obj', {'__call__': ['fn', 'truthy']}], ['obj', {'__call__': ['raise']}]]
         for l, vs in _iter_sets():
             for k, fn in enumerate(fns):
-                if k < 3 or l.startswith('ints/') or l.startswith('bad/'):
+                if k < 4 or l.startswith('ints/') or l.startswith('bad/'):
                     S.append(('%s,fn=%d' % (l, k), dict(vs, function=fn)))
     elif b == 'float':
         xs = [I(3), I(-(10 ** 30)), I(10 ** 400), ['bool', True], ['float', '2.5'], ['float', 'nan'], ['str', '1.5'], ['str', ' 2 '],
@@ -460,11 +491,11 @@ def value_sets(b):
               ['fraction', 7, 2], ['decimal', '8.9'], ['complex', 1, 0],
               ['obj', {'__int__': I(11)}], ['obj', {'__index__': I(13)}], ['obj', {'__trunc__': I(15)}],
               ['obj', {'__int__': ['raise']}], ['obj', {'__int__': ['str', 'no']}]]
-        bases = [I(10), I(2), I(16), I(0), I(36), I(8), I(1), I(37), I(-2), ['bool', True], ['float', '10.0'], ['none'], ['str', '10'],
+        bases = [I(10), I(2), I(16), I(0), ['obj', {'__index__': I(0)}], ['obj', {'__index__': I(16), '__bool__': ['bool', False]}], I(36), I(8), I(1), I(37), I(-2), ['bool', True], ['float', '10.0'], ['none'], ['str', '10'],
                  ['obj', {'__index__': I(16)}], ['obj', {'__index__': ['raise']}]]
         for k, x in enumerate(xs):
             for j, ba in enumerate(bases):
-                if j < 4 or x[0] in ('str', 'bytes') and k in (7, 9, 11, 16):
+                if j < 6 or x[0] in ('str', 'bytes') and k in (7, 9, 11, 16):
                     S.append(('x=%s%d,base=%s%d' % (x[0], k, ba[0], j), {'x': x, 'base': ba}))
     elif b == 'len':
         objs = [L(INTS), L([]), ['tuple', INTS], ['dict', [[I(1), I(2)]]], ['set', INTS], ['frozenset', INTS], ['str', 'héllo'],
@@ -493,6 +524,8 @@ def value_sets(b):
         S.append(('none-fn', {'function': ['none'], 'it0': L(INTS), 'it1': L(INTS), 'it2': L(INTS)}))
         S.append(('not-iterable', {'function': ['fn', 'tup'], 'it0': I(3), 'it1': L(INTS), 'it2': ['none']}))
         S.append(('second-not-iterable', {'function': ['fn', 'tup'], 'it0': ['citer', INTS], 'it1': I(4), 'it2': ['citer', INTS]}))
+        S.append(('falsy-callable-obj', {'function': ['obj', {'__call__': ['fn', 'tup'], '__bool__': ['bool', False]}],
+                                         'it0': ['falsyit', INTS], 'it1': ['falsyit', STRS, 'len0'], 'it2': ['citer', FLOATS]}))
         S.append(('callable-obj', {'function': ['obj', {'__call__': ['fn', 'tup']}], 'it0': ['citer', INTS], 'it1': ['gen', STRS], 'it2': ['userit', FLOATS]}))
         S.append(('callable-obj-raises', {'function': ['obj', {'__call__': ['raise']}], 'it0': ['citer', INTS], 'it1': ['gen', STRS], 'it2': ['userit', FLOATS]}))
     elif b == 'print':
@@ -502,7 +535,8 @@ def value_sets(b):
                    [['obj', {'__str__': ['raise']}], I(1), I(2)], [['obj', {'__str__': I(3)}], I(1), I(2)]]
         seps = [['str', '-'], ['str', ''], ['none'], ['str', ', '], I(3), ['bytes', 'x'], ['obj', {'__str__': ['str', 's']}]]
         ends = [['str', '!\n'], ['str', ''], ['none'], ['str', '\n\n'], I(0), L([])]
-        files = [['stringio'], ['none'], ['userfile'], ['userfile', False], ['nofile'], I(3)]
+        files = [['stringio'], ['userfile', True, 'len0'], ['none'], ['userfile', True, 'boolfalse'], ['userfile'], ['userfile', False],
+                 ['userfile', False, 'len0'], ['nofile'], I(3)]
         flushes = [['bool', True], ['bool', False], I(1), I(0), ['none'], ['obj', {'__bool__': ['bool', True]}],
                    ['obj', {'__bool__': ['raise']}], ['str', '']]
         n = max(len(objsets), len(seps), len(ends), len(files), len(flushes))
@@ -514,6 +548,14 @@ def value_sets(b):
                           flush=flushes[(j + 2 * oi) % len(flushes)])
                 S.append(('objs%d/%d' % (oi, j), vs))
                 k += 1
+        # falsy-but-valid values of every optional parameter at once: empty separators, falsy sinks, falsy flush
+        for fi, fl in enumerate([['userfile', True, 'len0'], ['userfile', True, 'boolfalse'], ['userfile', False, 'len0']]):
+            for oi, objs in enumerate(objsets[:3]):
+                vs = {'obj%d' % i: o for i, o in enumerate(objs)}
+                vs.update(sep=['str', ''], end=['str', ''], file=fl, flush=[['bool', False], I(0), ['obj', {'__bool__': ['bool', False]}]][(fi + oi) % 3])
+                S.append(('falsy-sink%d/%d' % (fi, oi), vs))
+                vs2 = dict(vs, sep=['str', '|'], end=['str', '$'], flush=['bool', True])
+                S.append(('falsy-sink%d/%d/b' % (fi, oi), vs2))
     elif b == 'range':
         trip = [(I(0), I(5), I(1)), (I(2), I(10), I(3)), (I(10), I(0), I(-2)), (I(5), I(5), I(1)), (I(-3), I(3), I(2)),
                 (I(0), I(10 ** 20), I(10 ** 19)), (['bool', True], ['bool', False], ['bool', True]), (I(0), I(5), I(0)),
@@ -525,7 +567,8 @@ def value_sets(b):
                 (['fraction', 1, 1], ['decimal', '5'], ['complex', 1, 0])]
         S = [('r%d' % k, {'start': a, 'stop': st, 'step': sp}) for k, (a, st, sp) in enumerate(trip)]
     elif b == 'sorted':
-        keys = [['none'], ['fn', 'neg'], ['fn', 'len'], ['fn', 'lower'], ['fn', 'str'], ['fn', 'second'], ['fn', 'boom'], I(3),
+        keys = [['none'], ['obj', {'__call__': ['fn', 'str'], '__bool__': ['bool', False]}], ['obj', {'__call__': ['fn', 'str'], '__len__': I(0)}],
+                ['fn', 'neg'], ['fn', 'len'], ['fn', 'lower'], ['fn', 'str'], ['fn', 'second'], ['fn', 'boom'], I(3),
                 ['obj', {'__call__': ['fn', 'str']}]]
         revs = [['bool', True], ['bool', False], I(1), I(0), ['none'], ['str', 'yes'], ['str', ''], L([]),
                 ['obj', {'__bool__': ['bool', True]}], ['obj', {'__bool__': ['bool', False]}], ['obj', {'__bool__': ['raise']}],
